@@ -8,12 +8,32 @@ tables) calls accessor functions of the unit and judges what it observes against
                   be disjoint from the neighbours' sets and lie inside the struct; then every store (=, op=, ++/--) on
                   three backgrounds must change only bits of that set, read back the C11-converted value, yield the
                   converted value as expression value, and leave both neighbours' values alone.
- (b) aggregate copy   sizes 1..40 x member mixes x {assign, init, argument, return, ?:, comma, chain, element}.
+ (b) aggregate copy   10 member mixes x payload sizes {1..72, 96, 127, 128, 129, 255, 256, 257, 511, 512, 1000, 4096} (thorough:
+                      1..130, 255..257, 511..513, 1000, 1023..1025, 2048, 4095..4097, 8192) x 22 ways: 12 that move the aggregate
+                      {assign, deref, init, argument, 7th argument, return, ?:, comma, chain, element, pointer arithmetic, member of
+                      return value} and 10 that consume the VALUE of an aggregate assignment expression {p[2] = p[k] = z, three-link
+                      chain through pointers, (a = b).aggregate-member, (a = b).scalar-member for every payload byte, f(a = b),
+                      return *d = *s, both arms of ?:, right operand of a comma, value of a statement expression, initialiser}.
+                      Chained forms check both destinations.
  (c) member paths     all shapes of depth <= 3 over struct/union/array/anonymous members; leaf dictionary, union-aware.
  (d) locals           all multisets of <= 4 locals from 13 kinds: disjoint, aligned, patterns survive, names read own bytes.
- (e) VLA / alloca     10 sizes x creation contexts: 16-aligned, disjoint from all live objects, contents and
-                      surrounding expression value preserved.
- (f) partial init     sizes 1..40 x forms: unmentioned bytes are zero on a dirtied stack.
+ (e) VLA / alloca     13 sizes (0..100, 256, 1000, 4096) x creation contexts: 16-aligned, disjoint from all live objects, contents
+                      and surrounding expression value preserved.
+ (f) partial init     the sizes of (b) x forms: unmentioned bytes are zero on a dirtied stack.
+ (g) VLA types        one variably modified type used at several sites on different control-flow paths:
+                      8 ways to name the type {typedef of char[n], long[n], int[n][3], array of a typedef'd row, char[n][n+1];
+                      typeof(VLA object); typeof(type name); written out} x 4 uses {declaration(s) of objects, sizeof(type name),
+                      pointer to the type (sizeof *p, p+1, &p[2], &(*p)[last], q-p, p-q, q[-1]), array of the type} x 13 flows
+                      {straight, then arm, else arm, first / middle / default case of a switch, goto around the first site, goto
+                      that runs the later site first, loop alternating the sites, loop with the type re-established with a new n
+                      in each iteration, ?: arms, && short circuit, n modified after the type was established} x 9 lengths
+                      (thorough: 1..33, 64, 100, 255).  Judged: sizeof (object, *&object, type name, element), byte offset of the
+                      last element, a store to it lands there, 16-alignment, disjointness from every live object, contents, and
+                      sizeof of an object declared before the flow after it.  Each unit runs at both stack parities on a zeroed and
+                      on a patterned stack.  A deviation is reported only if the same unit compiled by gcc -O0 satisfies the
+                      dictionary (second oracle).
+ (h) VLA parameters   6 parameter forms {a[n][n], (*a)[n], a[][n], a[n], a[n][n+1], a[static n]} x 5 lengths: sizeof, element
+                      offsets and a store inside the callee.
 
 Nothing is compared with gcc's layout (that is C08); gcc only compiles the driver.
 """
@@ -219,13 +239,31 @@ COPY_SHAPES = {   # name -> (first member decl or None, its size, minimum payloa
     "c": (None, 0), "s": ("short a", 2), "i": ("int a", 4), "l": ("long a", 8), "d": ("double a", 8), "f": ("float a", 4),
     "ld": ("long double a", 16), "a16": ("A16", 0), "u": ("UNION", 0), "sc": ("struct { char x; short y; } a", 4),
 }
-COPY_WAYS = ["assign", "deref", "init", "arg", "arg7", "ret", "cond", "comma", "chain", "elem", "ptrarith", "member-of-ret"]
+# ways that only move the aggregate, and ways that CONSUME THE VALUE of an aggregate assignment expression (6.5.16p3: "the value of
+# the left operand after the assignment"): chained assignment, member of an assignment, assignment as argument / return value /
+# ?: arm / comma operand / statement-expression value / initialiser.
+COPY_WAYS = ["assign", "deref", "init", "arg", "arg7", "ret", "cond", "comma", "chain", "elem", "ptrarith", "member-of-ret",
+             "assign-chain-elem", "assign-chain-deref", "assign-member", "assign-member-scalar", "assign-arg", "assign-ret",
+             "assign-cond", "assign-comma", "assign-stmtexpr", "assign-init"]
+# payload sizes: every size up to 72 (past the 16/32/64-byte boundaries at which a code generator plausibly switches from
+# unrolled moves to wider moves, string instructions or a loop) and the neighbourhoods of 128, 256, 512, plus 96, 1000 and a page
+COPY_SIZES = list(range(1, 73)) + [96, 127, 128, 129, 255, 256, 257, 511, 512, 1000, 4096]
+COPY_SIZES_THOROUGH = list(range(1, 131)) + [255, 256, 257, 511, 512, 513, 1000, 1023, 1024, 1025, 2048, 4095, 4096, 4097, 8192]
+COPY_MAX = 8192 + 16      # largest sizeof the driver accepts (payload + alignment padding); COPY_MAX in harness/c04_drv.h
+
+
+def copy_sizes(tier):
+    return COPY_SIZES if tier == "quick" else COPY_SIZES_THOROUGH
+
+
+def copy_weight(c):
+    return 40 + c.spec[1]
 
 
 def copy_cases(tier):
     cases = []
     for sh, (m, msz) in COPY_SHAPES.items():
-        for n in range(1, 41):
+        for n in copy_sizes(tier):
             if n <= msz:
                 continue
             for way in COPY_WAYS:
@@ -238,6 +276,7 @@ def copy_unit_one(i, c):
     m, msz = COPY_SHAPES[sh]
     A, D = "struct A%d" % i, "struct D%d" % i
     mems = []   # (expr relative to an A lvalue, size expr)
+    cn = n - msz            # length of the trailing char array c[]
     if m is None:
         adef = "%s { char c[%d]; };" % (A, n); mems = [("c", n)]
     elif m == "A16":
@@ -246,12 +285,13 @@ def copy_unit_one(i, c):
         A, D = "union A%d" % i, "struct D%d" % i
         adef = "%s { char c[%d]; int w; };" % (A, n); mems = [("c", n)]
     elif sh == "sc":
-        adef = "%s { %s; char c[%d]; };" % (A, m, n - msz); mems = [("a.x", 1), ("a.y", 2), ("c", n - msz)]
+        adef = "%s { %s; char c[%d]; };" % (A, m, cn); mems = [("a.x", 1), ("a.y", 2), ("c", cn)]
     else:
-        adef = "%s { %s; char c[%d]; };" % (A, m, n - msz); mems = [("a", msz), ("c", n - msz)]
-    arr = way in ("elem", "ptrarith")
+        adef = "%s { %s; char c[%d]; };" % (A, m, cn); mems = [("a", msz), ("c", cn)]
+    arr = way in ("elem", "ptrarith", "assign-chain-elem", "assign-ret")
     ddef = "%s { char g0[16]; %s d%s; char g1[16]; };" % (D, A, "[3]" if arr else "")
     flags, dests = [0], ["z.d"]
+    dests2 = None           # a second destination that must receive the same bytes (chained assignments)
     helpers = ""
     if way == "assign":
         body = "dst->d = *src;"
@@ -281,23 +321,54 @@ def copy_unit_one(i, c):
         body = "dst->d[flag] = *src;"; flags = [1, 2]; dests = ["z.d[1]", "z.d[2]"]
     elif way == "ptrarith":
         body = "*(dst->d + flag) = *src;"; flags = [0, 2]; dests = ["z.d[0]", "z.d[2]"]
-    sel = [0 if f else 1 for f in flags] if way == "cond" else [0] * len(flags)
+    # ---- the value of an aggregate assignment expression is consumed
+    elif way == "assign-chain-elem":      # p[2] = p[flag] = z: both elements receive the source, the third stays
+        body = "dst->d[2] = dst->d[flag] = *src;"; flags = [0, 1]; dests = ["z.d[2]", "z.d[2]"]; dests2 = ["z.d[0]", "z.d[1]"]
+    elif way == "assign-chain-deref":     # three-link chain through pointers to automatic objects
+        body = "%s t[2]; %s *q = t; dst->d = q[1] = *q = *src;" % (A, A)
+    elif way == "assign-member":          # (a = b).m with an aggregate member m
+        helpers = "struct W%d { char lead; %s in; };\n" % (i, A)
+        body = "struct W%d w, w2; w2.lead = 1; w2.in = *src; dst->d = (w = w2).in;" % i
+    elif way == "assign-member-scalar":   # (a = b).m with scalar members: every byte of the payload travels through one
+        first = "" if sh in ("c", "a16", "u") else " c04_cpy(&dst->d.a, &t.a, sizeof t.a);"
+        body = "%s t; for (long k = 0; k < %d; k++) dst->d.c[k] = (t = *src).c[k];%s" % (A, n if sh in ("c", "a16", "u") else cn, first)
+    elif way == "assign-arg":             # f(a = b)
+        helpers = "static long take%d(%s a, %s *dst) { dst->d = a; return 0; }\n" % (i, A, D)
+        body = "%s t; take%d(t = *src, dst);" % (A, i)
+    elif way == "assign-ret":             # return *d = *s;
+        helpers = "static %s pass%d(%s *d, %s *s) { return *d = *s; }\n" % (A, i, A, A)
+        body = "dst->d[2] = pass%d(&dst->d[flag], src);" % i; flags = [0, 1]; dests = ["z.d[2]", "z.d[2]"]; dests2 = ["z.d[0]", "z.d[1]"]
+    elif way == "assign-cond":            # assignments as both arms of ?:
+        body = "%s t; dst->d = flag ? (t = *src) : (t = *src2);" % A; flags = [0, 1]; dests = ["z.d", "z.d"]
+    elif way == "assign-comma":           # assignment as the right operand of a comma (and one as the discarded left operand)
+        body = "%s t, u; dst->d = (u = *src2, t = *src);" % A
+    elif way == "assign-stmtexpr":        # assignment as the value of a statement expression
+        body = "%s t; dst->d = ({ flag++; t = *src; });" % A
+    elif way == "assign-init":            # assignment as an initialiser
+        body = "%s t; { %s u = t = *src; dst->d = u; }" % (A, A)
+    else:
+        raise ValueError(way)
+    sel = [0 if f else 1 for f in flags] if way in ("cond", "assign-cond") else [0] * len(flags)
     g = ["case 0: return sizeof(%s); case 1: return sizeof(%s); case 3: return %d;" % (A, D, len(mems)),
          "case 100: return (long)&dobj%d; case 101: return (long)&sobj%d; case 102: return (long)&tobj%d;" % (i, i, i)]
     for j, dx in enumerate(dests):
         g.append("case %d: return (char *)&%s - (char *)&z;" % (20 + j, dx))
+    for j, dx in enumerate(dests2 or []):
+        g.append("case %d: return (char *)&%s - (char *)&z;" % (30 + j, dx))
     for j, (mx, ms) in enumerate(mems):
         g.append("case %d: return (char *)&y.%s - (char *)&y; case %d: return sizeof(y.%s);" % (40 + 2 * j, mx, 41 + 2 * j, mx))
     unit = ("%s\n%s\n%s dobj%d; %s sobj%d, tobj%d;\n%slong b%d(%s *dst, %s *src, %s *src2, long flag) { %s return flag; }\n"
             "long g%d(long k) { static %s z; static %s y; switch (k) {\n%s\n} return -1; }\n"
             % (adef, ddef, D, i, A, i, i, helpers, i, D, A, A, body, i, D, A, "\n".join(g)))
-    row = "{%d,{%s},{%s}}" % (len(flags), ",".join(str(f) for f in (flags + [0])[:2]), ",".join(str(f) for f in (sel + [0])[:2]))
+    row = "{%d,{%s},{%s},%d}" % (len(flags), ",".join(str(f) for f in (flags + [0])[:2]), ",".join(str(f) for f in (sel + [0])[:2]), 1 if dests2 else 0)
     return unit, row
 
 
 CB_DECL = ("long c04_reg(void *, long, long, long); long c04_verify(void); long c04_mark(void); long c04_drop(long); long c04_tag(void *, long, long);\n"
            "long c04_id(long); long c04_val(long, long, long, unsigned long); long c04_wrote(long, long, long, unsigned long); long c04_same(void *, void *, long, long);\n"
-           "long c04_zero(void *, long, long); long c04_wrote_ld(long); long c04_path(long, void *); long c04_add3(long, long, long); void *alloca(unsigned long);\n")
+           "long c04_zero(void *, long, long); long c04_wrote_ld(long); long c04_path(long, void *); long c04_add3(long, long, long); void *alloca(unsigned long);\n"
+           "long c04_cpy(void *, void *, long); long c04_vla(void *, long, long, long); long c04_expect(long, long, long);\n"
+           "long c04_stored(void *, long, long, unsigned long); void *c04_buf(void);\n")
 
 
 def copy_build(cases):
@@ -495,7 +566,7 @@ def local_unit_one(i, c):
             % (i, " ".join(decl), " ".join(reg), " ".join(rd), " ".join(wr)))
 
 
-def simple_build(prefix, one, family):
+def simple_build(prefix, one, family, extra=""):
     def build(cases):
         u, rows = [CB_DECL], []
         for i, c in enumerate(cases):
@@ -508,15 +579,16 @@ def simple_build(prefix, one, family):
         u.append("void *c04_fn[] = {%s};" % ",".join("(void *)%s%d" % (prefix, i) for i in range(n)))
         d = ['#include "%s"' % HDR, "extern void *c04_fn[];", "long c04_path(long i, void *p) { return 0; }",
              "static const CallRow rows[] = {%s};" % ",\n".join(rows),
-             'int main(void) { install_traps(); cb_family = "%s"; int n = sizeof rows / sizeof rows[0];' % family,
-             "  for (int i = 0; i < n; i++) { begin_case(i); GUARDED(call_case((long (*)(long))c04_fn[i], &rows[i])); end_case(); }",
+             # loop state is static: a unit that smashes the stack must not derail the enumeration
+             'int main(void) { static volatile int i, n; install_traps(); cb_family = "%s"; %s n = sizeof rows / sizeof rows[0];' % (family, extra),
+             "  for (i = 0; i < n; i++) { begin_case(i); GUARDED(call_case((long (*)(long))c04_fn[i], &rows[i])); end_case(); }",
              '  printf("S evals=%ld skipped=%ld\\n", n_evals, n_skipped); return 0; }']
         return "\n".join(u) + "\n", "\n".join(d) + "\n"
     return build
 
 
 # ---------------------------------------------------------------------------------------------- (e) VLA / alloca
-VA_SIZES = [0, 1, 7, 8, 15, 16, 17, 31, 32, 100]
+VA_SIZES = [0, 1, 7, 8, 15, 16, 17, 31, 32, 100, 256, 1000, 4096]
 VA_CTX = ["stmt", "two-live", "loop", "arg-d0", "arg-d1", "arg-d2", "arg-d3", "binop-lhs", "binop-rhs", "binop-deep", "nested-calls", "after-struct-arg", "cond-arm"]
 VA_KINDS = ["alloca", "vla-char", "vla-long", "vla-2d"]
 
@@ -599,6 +671,160 @@ def va_unit_one(i, c):
     return unit, "{%d, %d, 0, {0}}" % (x, want)
 
 
+# ---------------------------------------------------------------------------------------------- (g) VLA types on several paths
+# One variably modified type, several places that use it, and control flow that reaches a later place without having
+# executed the textually earlier ones.  Every use must see the size the type had when it was established (6.7.6.2p5,
+# 6.7.8p8: a typedef's size expression is evaluated when the typedef is reached).
+VT_SIZES = [1, 7, 8, 15, 16, 17, 31, 32, 100]
+VT_SIZES_THOROUGH = list(range(1, 34)) + [64, 100, 255]     # typedef-nn squares the length: 255 keeps a frame under 1 MB
+# form -> pre(nv): statements establishing the type from variable nv; decl/ptr/arr2(name): declarators; tname: type name;
+#         es(nv): sizeof in bytes; last/lastoff(nv): subscripts of the last element and its byte offset; elsz; shared: one type
+#         object serves all uses (typedef / typeof of an object) - only then may n change after the type was established
+VT_FORMS = {
+    "typedef-char": dict(pre=lambda v: "typedef char T[%s];" % v, decl="T %s", ptr="T *%s", arr2="T %s[2]", tname="T", pcast="(T *)",
+                         es=lambda v: "%s" % v, last=lambda v: "[%s - 1]" % v, lastoff=lambda v: "(%s - 1)" % v, elsz=1, shared=True),
+    "typedef-long": dict(pre=lambda v: "typedef long T[%s];" % v, decl="T %s", ptr="T *%s", arr2="T %s[2]", tname="T", pcast="(T *)",
+                         es=lambda v: "(8 * %s)" % v, last=lambda v: "[%s - 1]" % v, lastoff=lambda v: "(8 * %s - 8)" % v, elsz=8, shared=True),
+    "typedef-2d": dict(pre=lambda v: "typedef int T[%s][3];" % v, decl="T %s", ptr="T *%s", arr2="T %s[2]", tname="T", pcast="(T *)",
+                       es=lambda v: "(12 * %s)" % v, last=lambda v: "[%s - 1][2]" % v, lastoff=lambda v: "(12 * %s - 4)" % v, elsz=4, shared=True),
+    "typedef-row": dict(pre=lambda v: "typedef short R[%s]; typedef R T[2];" % v, decl="T %s", ptr="T *%s", arr2="T %s[2]", tname="T", pcast="(T *)",
+                        es=lambda v: "(4 * %s)" % v, last=lambda v: "[1][%s - 1]" % v, lastoff=lambda v: "(4 * %s - 2)" % v, elsz=2, shared=True),
+    "typedef-nn": dict(pre=lambda v: "typedef char T[%s][%s + 1];" % (v, v), decl="T %s", ptr="T *%s", arr2="T %s[2]", tname="T", pcast="(T *)",
+                       es=lambda v: "(%s * (%s + 1))" % (v, v), last=lambda v: "[%s - 1][%s]" % (v, v), lastoff=lambda v: "(%s * (%s + 1) - 1)" % (v, v), elsz=1, shared=True),
+    "typeof-var": dict(pre=lambda v: "char w0[%s]; c04_vla(w0, sizeof w0, %s, 0);" % (v, v), decl="typeof(w0) %s", ptr="typeof(w0) *%s", arr2="typeof(w0) %s[2]",
+                       tname="typeof(w0)", pcast="(typeof(w0) *)", es=lambda v: "%s" % v, last=lambda v: "[%s - 1]" % v, lastoff=lambda v: "(%s - 1)" % v, elsz=1, shared=True,
+                       after=lambda v: " c04_expect(sizeof w0, %s, 3);" % v, tail=lambda v: " c04_expect(sizeof w0, %s, 3);" % v),
+    "typeof-type": dict(pre=lambda v: "", decl="typeof(long[n]) %s", ptr="typeof(long[n]) *%s", arr2="typeof(long[n]) %s[2]", tname="typeof(long[n])", pcast="(typeof(long[n]) *)",
+                        es=lambda v: "(8 * %s)" % v, last=lambda v: "[%s - 1]" % v, lastoff=lambda v: "(8 * %s - 8)" % v, elsz=8, shared=False),
+    "written-out": dict(pre=lambda v: "", decl="int %s[n][3]", ptr="int (*%s)[n][3]", arr2="int %s[2][n][3]", tname="int[n][3]", pcast="(int (*)[n][3])",
+                        es=lambda v: "(12 * %s)" % v, last=lambda v: "[%s - 1][2]" % v, lastoff=lambda v: "(12 * %s - 4)" % v, elsz=4, shared=False),
+}
+VT_USES = ["decl", "sizeof-type", "ptr", "array-of", "cast-ptr"]
+VT_CAST_SIZES = [1, 17, 100]      # the cast use is enumerated over three lengths only
+# flow -> which of the use sites U1 (textually first), U2, U3 run, in order
+VT_FLOWS = ["straight", "if-then", "if-else", "switch-first", "switch-mid", "switch-default", "goto-around", "goto-back",
+            "loop-flip", "loop-n", "cond-expr", "andand", "n-changed"]
+# signature classes: does the textually first use site run first, not at all, or after a later one; did n change meanwhile
+VT_FLOW_GROUP = {"straight": "first-site-first", "if-then": "first-site-first", "switch-first": "first-site-first",
+                 "if-else": "later-site-only", "switch-mid": "later-site-only", "switch-default": "later-site-only", "goto-around": "later-site-only",
+                 "cond-expr": "later-site-only", "andand": "later-site-only",
+                 "goto-back": "later-site-first", "loop-flip": "later-site-first", "loop-n": "later-site-first", "n-changed": "n-changed"}
+for _f, _F in VT_FORMS.items():
+    _F["group"] = "typedef" if _f.startswith("typedef") else "typeof-object" if _f == "typeof-var" else "unshared"
+
+
+def vt_cases(tier):
+    cases = []
+    for use in VT_USES:            # uses outermost: the cast-ptr cases (which the pinned tree cannot compile) share batches
+        for form, F in VT_FORMS.items():
+            for flow in VT_FLOWS:
+                if flow == "n-changed" and not F["shared"]:
+                    continue          # a type written out at its use is evaluated there: nothing to compare
+                for n in (VT_CAST_SIZES if use == "cast-ptr" else VT_SIZES if tier == "quick" else VT_SIZES_THOROUGH):
+                    cases.append(Case("vt", "vt/%s/%s/%s/%d" % (form, use, flow, n), "vla-types|%s,%s,%s" % (F["group"], use, VT_FLOW_GROUP[flow]), (form, use, flow, n)))
+    return cases
+
+
+def vt_use(F, use, k, nv, two):
+    """one use site (a block); nv names the variable that held the length when the type was established"""
+    es, last, lastoff, elsz = F["es"](nv), F["last"](nv), F["lastoff"](nv), F["elsz"]
+    after = F.get("after", lambda v: "")(nv)
+    if use == "decl":
+        names = ["a%d" % k, "b%d" % k] if two else ["a%d" % k]
+        b = ""
+        for j, nm in enumerate(names):
+            b += ("%s; c04_vla(%s, sizeof %s, %s, 0); c04_expect(sizeof *&%s, %s, 0); c04_expect((char *)&%s%s - (char *)%s, %s, 1); %s%s = %d; c04_stored(%s, %s, %d, %d);%s "
+                  % (F["decl"] % nm, nm, nm, es, nm, es, nm, last, nm, lastoff, nm, last, 0x51 + j, nm, lastoff, elsz, 0x51 + j, after))
+        return b
+    if use == "sizeof-type":
+        return "c04_expect(sizeof(%s), %s, 0); c04_expect(sizeof(%s) + 1, %s + 1, 0);%s " % (F["tname"], es, F["tname"], es, after)
+    if use == "ptr":
+        p, q = "p%d" % k, "q%d" % k
+        return ("%s = c04_buf(); c04_expect(sizeof *%s, %s, 0); c04_expect((char *)(%s + 1) - (char *)%s, %s, 1); c04_expect((char *)&%s[2] - (char *)%s, 2 * %s, 1); "
+                "c04_expect((char *)&(*%s)%s - (char *)%s, %s, 1); %s = %s + 3; c04_expect(%s - %s, 3, 2); c04_expect(%s - %s, -3, 2); c04_expect((char *)&%s[-1]%s - (char *)%s, 2 * %s + %s, 1); "
+                "c04_expect((char *)(%s - 2) - (char *)%s, %s, 1);%s "
+                % (F["ptr"] % p, p, es, p, p, es, p, p, es, p, last, p, lastoff, F["ptr"] % q, p, q, p, p, q, q, last, p, es, lastoff, q, p, es, after))
+    if use == "cast-ptr":
+        b, pc = "c%d" % k, F["pcast"]
+        return ("char *%s = c04_buf(); c04_expect((char *)(%s%s + 1) - %s, %s, 1); c04_expect((char *)&(%s%s)[2] - %s, 2 * %s, 1); c04_expect((char *)&(*%s%s)%s - %s, %s, 1);%s "
+                % (b, pc, b, b, es, pc, b, b, es, pc, b, last, b, lastoff, after))
+    if use == "array-of":
+        a = "m%d" % k
+        return ("%s; c04_vla(%s, sizeof %s, 2 * %s, 0); c04_expect(sizeof %s[0], %s, 0); c04_expect((char *)&%s[1] - (char *)%s, %s, 1); %s[1]%s = 0x63; c04_stored(%s, %s + %s, %d, 0x63);%s "
+                % (F["arr2"] % a, a, a, es, a, es, a, a, es, a, last, a, es, lastoff, elsz, after))
+    raise ValueError(use)
+
+
+def vt_unit_one(i, c):
+    form, use, flow, n = c.spec
+    F = VT_FORMS[form]
+    x = 5
+    nv = "n0" if flow == "n-changed" else "n"
+
+    def U(k, two=False, expr=False):
+        body = "long t%d = c04_mark(); %sr += 1; c04_drop(t%d);" % (k, vt_use(F, use, k, nv, two), k)
+        return "({ %s 0; })" % body if expr else "{ %s }" % body
+    P = F["pre"]("n")
+    head = "long n = c04_id(%d);" % n
+    # after the flow: an object established before it must still have its size, whichever use sites ran
+    tail = F.get("tail", lambda v: "")(nv)
+    if flow == "straight":
+        body = "%s %s %s" % (P, U(1), U(2, True)); want = 2
+    elif flow == "if-then":
+        body = "%s if (x < 100) %s else %s" % (P, U(1), U(2, True)); want = 1
+    elif flow == "if-else":
+        body = "%s if (x > 100) %s else %s" % (P, U(1), U(2, True)); want = 1
+    elif flow in ("switch-first", "switch-mid", "switch-default"):
+        c1, c2 = {"switch-first": (5, 6), "switch-mid": (4, 5), "switch-default": (3, 4)}[flow]
+        body = "%s switch (x) { case %d: %s break; case %d: %s break; default: %s }" % (P, c1, U(1), c2, U(2, True), U(3, True)); want = 1
+    elif flow == "goto-around":
+        body = "%s if (x) goto L%d; %s L%d: %s" % (P, i, U(1), i, U(2, True)); want = 1
+    elif flow == "goto-back":
+        body = "%s goto M%d; B%d: %s goto E%d; M%d: %s goto B%d; E%d: ;" % (P, i, i, U(1), i, i, U(2, True), i, i); want = 2
+    elif flow == "loop-flip":
+        body = "%s for (long i = 0; i < 3; i++) { if (i == 1) %s else %s }" % (P, U(1), U(2, True)); want = 3
+    elif flow == "loop-n":
+        head = ""
+        body = "for (long i = 0; i < 3; i++) { long tl = c04_mark(); long n = c04_id(%d + 5 * i); %s if (i == 1) %s else %s%s c04_drop(tl); }" % (n, P, U(1), U(2, True), tail); want = 3
+        tail = ""
+    elif flow == "cond-expr":
+        body = "%s long e = x > 100 ? %s : %s; r += e;" % (P, U(1, False, True), U(2, True, True)); want = 1
+    elif flow == "andand":
+        body = "%s long e = (x > 100 && %s); e += (x < 100 && %s); r += e;" % (P, U(1, False, True), U(2, True, True)); want = 1
+    elif flow == "n-changed":
+        body = "%s long n0 = n; n += 3; %s n -= 1; %s" % (P, U(1), U(2, True)); want = 2
+    else:
+        raise ValueError(flow)
+    unit = ("long w%d(long x) { long a = x * 3; char b[20]; long m = c04_mark(); c04_reg(b, 20, 16, 1); long r = 0; %s\n  %s\n"
+            " %s c04_verify(); c04_drop(m); return r + (a != x * 3) * 1000000; }\n" % (i, head, body, tail))
+    return unit, "{%d, %d, 0, {0}}" % (x, want)
+
+
+# ---------------------------------------------------------------------------------------------- (h) VLA parameters
+VP_FORMS = {   # name -> (parameter list after `long n`, caller's array, its size, checks inside the callee)
+    "a[n][n]": ("int a[n][n]", "int buf[n][n]", "4 * n * n", "c04_expect(sizeof a[0], 4 * n, 0); c04_expect((char *)&a[n - 1][n - 1] - (char *)a, 4 * n * n - 4, 1); a[n - 1][n - 1] = 77; c04_stored(a, 4 * n * n - 4, 4, 77);"),
+    "(*a)[n]": ("int (*a)[n]", "int buf[n][n]", "4 * n * n", "c04_expect(sizeof *a, 4 * n, 0); c04_expect((char *)(a + 1) - (char *)a, 4 * n, 1); a[n - 1][n - 1] = 77; c04_stored(a, 4 * n * n - 4, 4, 77);"),
+    "a[][n]": ("long a[][n]", "long buf[3][n]", "24 * n", "c04_expect(sizeof a[0], 8 * n, 0); c04_expect((char *)&a[2][n - 1] - (char *)a, 24 * n - 8, 1); a[2][n - 1] = 77; c04_stored(a, 24 * n - 8, 8, 77);"),
+    "a[n]": ("char a[n]", "char buf[n]", "n", "c04_expect(sizeof a, 8, 0); c04_expect(&a[n - 1] - a, n - 1, 1); a[n - 1] = 77; c04_stored(a, n - 1, 1, 77);"),
+    "a[n][n+1]": ("short a[n][n + 1]", "short buf[n][n + 1]", "2 * n * (n + 1)", "c04_expect(sizeof a[0], 2 * n + 2, 0); c04_expect((char *)&a[n - 1][n] - (char *)a, 2 * n * (n + 1) - 2, 1); a[n - 1][n] = 77; c04_stored(a, 2 * n * (n + 1) - 2, 2, 77);"),
+    "a[static n]": ("char a[static n]", "char buf[n]", "n", "c04_expect(sizeof a, 8, 0); a[n - 1] = 77; c04_stored(a, n - 1, 1, 77);"),
+}
+VP_SIZES = [1, 7, 16, 17, 100]
+
+
+def vp_cases(tier):
+    return [Case("vp", "vp/%s/%d" % (f, n), "vla-param|%s" % f.replace(" ", "-"), (f, n)) for f in VP_FORMS for n in VP_SIZES]
+
+
+def vp_unit_one(i, c):
+    f, n = c.spec
+    par, buf, bsz, chk = VP_FORMS[f]
+    unit = ("static long h%d(long n, %s) { %s return n; }\n"
+            "long q%d(long x) { long n = c04_id(%d); long m = c04_mark(); %s; c04_vla(buf, sizeof buf, %s, 0); long r = h%d(n, buf); c04_drop(m); return r + x; }\n"
+            % (i, par, chk, i, n, buf, bsz, i))
+    return unit, "{5, %d, 0, {0}}" % (5 + n)
+
+
 # ---------------------------------------------------------------------------------------------- (f) partial initialisation
 PI_FORMS = ["char-array", "char-array-str", "struct-array", "struct-first", "long-then-array", "int-array", "short-last", "union-array", "nested", "in-loop"]
 
@@ -606,7 +832,7 @@ PI_FORMS = ["char-array", "char-array-str", "struct-array", "struct-first", "lon
 def pi_cases(tier):
     cases = []
     for form in PI_FORMS:
-        for n in range(1, 41):
+        for n in copy_sizes(tier):
             if form in ("char-array-str", "struct-first") and n < 2:
                 continue
             cases.append(Case("pi", "pi/%s/%d" % (form, n), "partial-init|%s" % form, (form, n)))
@@ -648,13 +874,19 @@ def pi_unit_one(i, c):
 
 
 FAMILIES = {"bf": bf_build, "cp": copy_build, "pa": path_build, "lo": simple_build("d", local_unit_one, "locals"),
-            "va": simple_build("v", va_unit_one, "vla-alloca"), "pi": simple_build("z", pi_unit_one, "partial-init")}
-BATCH = {"bf": 320, "cp": 300, "pa": 24, "lo": 400, "va": 130, "pi": 100}
+            "va": simple_build("v", va_unit_one, "vla-alloca"), "pi": simple_build("z", pi_unit_one, "partial-init"),
+            "vt": simple_build("w", vt_unit_one, "vla", "call_rounds = 4;"), "vp": simple_build("q", vp_unit_one, "vla", "call_rounds = 4;")}
+WEIGHT = {"cp": copy_weight}
+REF_FAMS = ("vt", "vp")      # families whose verdicts are cross-checked against gcc -O0 on the same unit
+BATCH = {"bf": 320, "cp": 300, "pa": 24, "lo": 400, "va": 130, "pi": 100, "vt": 120, "vp": 30}
 
 
 # ---------------------------------------------------------------------------------------------- batch runner
 class _C:
     chibicc = None
+
+
+GCC_UNIT = [f for f in twin.GCC_REF if f != "-fno-builtin"]      # reference compilation of a unit (alloca is a builtin)
 
 
 def _compile_unit(chibicc, wd, name, unit):
@@ -663,14 +895,38 @@ def _compile_unit(chibicc, wd, name, unit):
         f.write(unit)
     c = _C()
     c.chibicc = chibicc
+    if os.environ.get("C04_SELFTEST_GCC"):     # harness self-test: the units go through gcc; every V line is then a harness bug
+        st, out, err = core.run_limited(GCC_UNIT + ["-c", "-o", name + ".o", name + ".c"], cwd=wd, timeout=600)
+        return st == 0, "gcc", st, err
     return twin.cc_compile(c, p, os.path.join(wd, name + ".o"), [], cwd=wd)
+
+
+def _run_driver(wd, exe, good, res, into):
+    st, out, err = core.run_limited([exe], cwd=wd, timeout=900)
+    if st == "timeout":
+        res["error"] = "timeout"
+        return False
+    if st != 0:
+        res["error"] = "driver exit %s: %s %s" % (st, out[-300:], err[-300:])
+        return False
+    for line in out.splitlines():
+        if line.startswith("V "):
+            _, i, dev, detail = (line.split(" ", 3) + [""])[:4]
+            into["lines"].append((good[int(i)].cid, dev, detail))
+        elif line.startswith("J "):
+            _, i, n = line.split()
+            into["judged"][good[int(i)].cid] = int(n)
+        elif line.startswith("S "):
+            m = re.match(r"S evals=(\d+) skipped=(\d+)", line)
+            into["evals"], into["skipped"] = int(m.group(1)), int(m.group(2))
+    return True
 
 
 def _work(args):
     chibicc, wd, fam, bidx, cases = args
     os.makedirs(wd, exist_ok=True)
     build = FAMILIES[fam]
-    res = {"bidx": bidx, "rejected": [], "lines": [], "judged": {}, "evals": 0, "skipped": 0, "error": None, "ncases": len(cases)}
+    res = {"bidx": bidx, "oracle_disagreements": [], "rejected": [], "lines": [], "judged": {}, "evals": 0, "skipped": 0, "error": None, "ncases": len(cases)}
     good = cases
     unit, drv = build(good)
     ok, stage, st, err = _compile_unit(chibicc, wd, "u", unit)
@@ -711,23 +967,28 @@ def _work(args):
     if st != 0:
         res["error"] = "driver build failed: " + err[-1500:]
         return res
-    st, out, err = core.run_limited([exe], cwd=wd, timeout=900)
-    if st == "timeout":
-        res["error"] = "timeout"
+    if not _run_driver(wd, exe, good, res, res):
         return res
-    if st != 0:
-        res["error"] = "driver exit %s: %s %s" % (st, out[-300:], err[-300:])
-        return res
-    for line in out.splitlines():
-        if line.startswith("V "):
-            _, i, dev, detail = (line.split(" ", 3) + [""])[:4]
-            res["lines"].append((good[int(i)].cid, dev, detail))
-        elif line.startswith("J "):
-            _, i, n = line.split()
-            res["judged"][good[int(i)].cid] = int(n)
-        elif line.startswith("S "):
-            m = re.match(r"S evals=(\d+) skipped=(\d+)", line)
-            res["evals"], res["skipped"] = int(m.group(1)), int(m.group(2))
+    if fam in REF_FAMS and res["lines"]:
+        # second oracle: the same unit through gcc -O0 must satisfy the dictionary; a case gcc's code fails too is a generator
+        # or dictionary problem, not an observation about chibicc (counted, not judged).  Only consulted when chibicc deviates.
+        st, out, err = core.run_limited(GCC_UNIT + ["-c", "-o", "u_ref.o", "u.c"], cwd=wd, timeout=600)
+        if st == "timeout":
+            res["error"] = "timeout"
+            return res
+        if st != 0:
+            res["error"] = "reference compiler rejects the generated unit: " + err[-1500:]
+            return res
+        st, out, err = core.run_limited(twin.GCC_DRV + ["-o", "t_ref.exe", "d.c", "u_ref.o", "-no-pie", "-Wl,-z,noexecstack"], cwd=wd, timeout=600)
+        if st != 0:
+            res["error"] = "timeout" if st == "timeout" else "reference driver build failed: " + err[-1500:]
+            return res
+        ref = {"lines": [], "judged": {}, "evals": 0, "skipped": 0}
+        if not _run_driver(wd, os.path.join(wd, "t_ref.exe"), good, res, ref):
+            return res
+        refbad = set(cid for cid, dev, detail in ref["lines"])
+        res["oracle_disagreements"] = sorted(refbad)
+        res["lines"] = [l for l in res["lines"] if l[0] not in refbad or l[1] == "harness"]
     return res
 
 
@@ -740,11 +1001,25 @@ REPLAY = ("# compiles the single case with the chibicc under test, links the gcc
 REPLAY_REJ = ("$CHIBICC -cc1 -cc1-input unit.c -cc1-output unit.s unit.c || exit 1\nas -o unit.o unit.s || exit 1\nexit 0")
 
 
+def make_batches(fam, cases):
+    """Equal-count batches; families whose cases differ widely in cost (WEIGHT) are dealt out heaviest first, round robin,
+    so that every batch holds the same mix of sizes.  Deterministic."""
+    w = WEIGHT.get(fam)
+    if not w:
+        return core.chunks(cases, BATCH[fam])
+    nb = max(1, -(-len(cases) // BATCH[fam]))
+    order = sorted(range(len(cases)), key=lambda k: (-w(cases[k]), k))
+    bins = [[] for _ in range(nb)]
+    for pos, k in enumerate(order):
+        bins[pos % nb].append(k)
+    return [[cases[k] for k in sorted(b)] for b in bins if b]
+
+
 def run_family(ctx, fam, cases, stats):
     byid = dict((c.cid, c) for c in cases)
     if len(byid) != len(cases):
         raise core.HarnessError("duplicate case ids in family " + fam)
-    batches = core.chunks(cases, BATCH[fam])
+    batches = make_batches(fam, cases)
     if ctx.seed:
         batches = batches[ctx.seed % len(batches):] + batches[:ctx.seed % len(batches)]
     args = [(ctx.chibicc, os.path.join(ctx.work, "%s%d" % (fam, i)), fam, i, b) for i, b in enumerate(batches)]
@@ -762,8 +1037,11 @@ def run_family(ctx, fam, cases, stats):
                 raise core.HarnessError("family %s batch %d: %s" % (fam, res["bidx"], res["error"]))
             stats["evals"] += res["evals"]
             stats["skipped"] += res["skipped"]
+            stats["oracle_disagreements"] += len(res["oracle_disagreements"])
             stats["cases"] += res["ncases"]
-            stats["judged_cases"] += sum(1 for v in res["judged"].values() if v > 0)
+            # a case counts as judged when an observation was evaluated, or when it was reported (a signal before the first observation)
+            reported = set(cid for cid, dev, detail in res["lines"])
+            stats["judged_cases"] += sum(1 for cid, v in res["judged"].items() if v > 0 or cid in reported)
             stats["fam_" + fam] = stats.get("fam_" + fam, 0) + res["ncases"]
             for cid, stage, st, last in res["rejected"]:
                 stats["rejected"] += 1
@@ -771,7 +1049,7 @@ def run_family(ctx, fam, cases, stats):
                 c = byid[real]
                 kind = "crash" if st.startswith("-") else "rejected"
                 msg = re.sub(r"[^a-z]+", "-", re.sub(r"^.*?(Error|error):", "", last).lower()).strip("-")[:60]
-                sig = "C04|%s|%s:%s:%s:%s" % (c.cls.split("|")[0], kind, stage, st, msg)
+                sig = "C04|%s|%s:%s:%s:%s" % (c.cls if fam == "vt" else c.cls.split("|")[0], kind, stage, st, msg)
                 u1, d1 = FAMILIES[fam]([c]) if sig not in ctx.violations else ("", "")
                 ctx.violation(sig, "valid unit %s: %s %s -> %s" % (kind, c.cid, stage, last),
                               files={"unit.c": u1, "driver.c": d1}, replay=REPLAY_REJ)
@@ -785,10 +1063,10 @@ def run_family(ctx, fam, cases, stats):
 
 
 def run(ctx):
-    stats = {"evals": 0, "skipped": 0, "cases": 0, "judged_cases": 0, "rejected": 0}
+    stats = {"evals": 0, "skipped": 0, "cases": 0, "judged_cases": 0, "rejected": 0, "oracle_disagreements": 0}
     # small families first: if the deadline stops the run, only the tail of the big bit-field enumeration is missing
     fams = [("cp", copy_cases(ctx.tier)), ("pa", path_cases(ctx.tier)), ("lo", local_cases(ctx.tier)),
-            ("va", va_cases(ctx.tier)), ("pi", pi_cases(ctx.tier)), ("bf", bf_cases(ctx.tier))]
+            ("va", va_cases(ctx.tier)), ("vt", vt_cases(ctx.tier)), ("vp", vp_cases(ctx.tier)), ("pi", pi_cases(ctx.tier)), ("bf", bf_cases(ctx.tier))]
     only = os.environ.get("C04_ONLY")
     for fam, cases in fams:
         if only and fam not in only.split(","):
@@ -799,17 +1077,22 @@ def run(ctx):
             stats["skipped"] += (len(VA_KINDS) - 1) * len(va_contexts(ctx.tier))
         run_family(ctx, fam, cases, stats)
     ctx.cover(evaluations=stats["evals"], skipped_undefined=stats["skipped"], cases=stats["cases"], distinct_nontrivial=stats["judged_cases"],
-              rejected_or_crashed=stats["rejected"],
+              rejected_or_crashed=stats["rejected"], oracle_disagreements=stats["oracle_disagreements"],
               rule="one case = one generated type/function shape with a stable id; evaluated = one store/copy/creation observed by the driver; "
                    "non-trivial = the case ran and at least one observation was judged against the dictionary")
     ctx.cover(bounds="(a) 241 (base type,width) pairs [9 types, _Bool width 1] x preceding unsigned long bit-field of width 0..63; x {char,short,int,uchar+ushort} "
                      "ordinary neighbours; x unnamed preceding bit-field of width 0,1,7,33; x {global '.', anonymous struct, union, nested struct, array element, "
                      "automatic copy} for %s; thorough adds every pair as pre and as post (241x241, 3x241x241). Per struct: 3 backgrounds x (15 stored values + 6 old values "
                      "x (5 op= x 6 operands + 2 shifts x 4 counts + 4 inc/dec)) + neighbour stores. "
-                     "(b) 10 member mixes x payload 1..40 x 12 ways. (c) all shapes of depth 1..3 over {struct, union, array[3], struct+anonymous struct, "
+                     "(b) 10 member mixes x payload sizes %s x 22 ways (12 moving the aggregate, 10 consuming the value of an aggregate assignment: chained element/pointer "
+                     "assignments, aggregate and scalar member of an assignment, assignment as argument, return value, ?: arms, comma operand, statement-expression value, initialiser). (c) all shapes of depth 1..3 over {struct, union, array[3], struct+anonymous struct, "
                      "struct+anonymous union, union+anonymous struct} x leaf-type phases x {global, file-scope literal, block-scope literal}; 4 store spellings, 3 read spellings. "
-                     "(d) all multisets of 1..4 locals from 13 kinds%s, both stack parities mod 32. (e) 4 kinds x 13 contexts x 10 sizes. (f) 10 forms x sizes 1..40."
-                     % ("4 preceding widths x 13+ field widths" if ctx.tier == "quick" else "all 64 preceding widths x all widths", "" if ctx.tier == "quick" else " in both declaration orders"))
+                     "(d) all multisets of 1..4 locals from 13 kinds%s, both stack parities mod 32. (e) 4 kinds x 13 contexts x 13 sizes 0..4096. (f) 10 forms x the sizes of (b). "
+                     "(g) 8 spellings of a VLA type (5 typedefs, typeof(object), typeof(type), written out) x 4 uses (declare objects, sizeof(type), pointer to it, array of it) x 13 control flows "
+                     "(straight, then/else arm, 3 switch positions, goto around, goto back, alternating loop, loop re-establishing the type with a new n, ?: arms, &&, n changed afterwards) x lengths %s, "
+                     "each on zeroed and patterned stacks at both parities, gcc -O0 on the same unit as second oracle. (h) 6 VLA parameter forms x 5 lengths."
+                     % ("4 preceding widths x 13+ field widths" if ctx.tier == "quick" else "all 64 preceding widths x all widths", str(copy_sizes(ctx.tier)).replace(" ", ""), "" if ctx.tier == "quick" else " in both declaration orders",
+                        str(VT_SIZES if ctx.tier == "quick" else VT_SIZES_THOROUGH).replace(" ", "")))
     for k, v in stats.items():
         if k.startswith("fam_"):
             ctx.cover(**{"cases_" + k[4:]: v})
@@ -818,6 +1101,8 @@ def run(ctx):
     if stats["evals"] == 0:
         raise core.HarnessError("vacuous: nothing evaluated")
     ctx.assume("plain char/short/int/long bit-fields are signed (implementation-defined, 6.7.2p5); out-of-range stores to signed fields wrap modulo 2^width")
+    ctx.assume("the size of a variably modified type is fixed when its declaration (typedef, object or type name) is reached and does not change afterwards (6.7.6.2p5, 6.7.8p8); "
+               "typeof and statement expressions (GNU C, implemented by chibicc and gcc alike) are used to spell some cases")
     ctx.assume("arrays and VLAs of >= 16 bytes and alloca blocks are 16-byte aligned (x86-64 psABI 3.1.2)")
     ctx.assume("padding bits/bytes and the inactive members of a union are not judged after a store (6.2.6.1p6-7); the differential discovery of a field's bit set assumes the all-ones/zero stores themselves leave padding alone")
     ctx.assume("the assembler, linker, gcc-compiled driver and CPU are trusted; layout agreement with gcc is property C08, not judged here")
